@@ -124,7 +124,7 @@ func Canon(r *promql.Result, c *Case) Result {
 	default:
 		out.Kind = fmt.Sprintf("unknown:%T", r.Value)
 	}
-	sort.SliceStable(out.Series, func(i, j int) bool { return out.Series[i].Labels < out.Series[j].Labels })
+	sortSeries(out.Series)
 	return out
 }
 
@@ -284,4 +284,22 @@ func ErrClass(msg string) string {
 		return "bad-param"
 	}
 	return "other"
+}
+
+// sortSeries orders series by labels and, for equal label sets, by their points, so that
+// results with duplicate label sets still compare as multisets.
+func sortSeries(ss []RSeries) {
+	key := func(s RSeries) string {
+		var sb strings.Builder
+		for _, p := range s.Pts {
+			fmt.Fprintf(&sb, "%d:%016x,", p.T, math.Float64bits(float64(p.V)))
+		}
+		return sb.String()
+	}
+	sort.SliceStable(ss, func(i, j int) bool {
+		if ss[i].Labels != ss[j].Labels {
+			return ss[i].Labels < ss[j].Labels
+		}
+		return key(ss[i]) < key(ss[j])
+	})
 }
